@@ -27,6 +27,28 @@ add("C01", "TLC checks the hop relation of Convert.tla (ChainRefines, Tight, Fix
     "against the named clauses (NeverRaises, NamePresent, NamesOrder, TypKept, DefaultKept/Fill, ProseKept.*, RetKept.*, SummaryKept, StyleDetected).",
     CONV_NOTE, CONV_TECH, "DESIGN.md 5.1, 8 C01")
 
+add("C02", "Same machinery for emit.class_ -> source text -> parse.class_: TLC validates every recorded round trip against the clauses "
+    "with FillDef(class) = {zero of the (filled) type, None} as the only tolerated change and the return entry carried as `return_type`.",
+    CONV_NOTE, CONV_TECH, "DESIGN.md 5.1, 8 C02")
+add("C03", "emit.function -> text -> parse.function for static / self / cls x inline types x keyword-only x indent 0..2; clauses as C01 plus "
+    "FuncKindKept, kwargs slot, RetKept (type, prose, returned expression).", CONV_NOTE, CONV_TECH, "DESIGN.md 5.1, 8 C03")
+add("C04", "emit.argparse_function -> text -> parse.argparse_ast over the argparse-expressible domain (plus inexpressible types for the "
+    "documented str fall-back); clauses with N8 (Optional <-> not required) and zero-value fill.", CONV_NOTE, CONV_TECH, "DESIGN.md 5.1, 8 C04")
+add("C05", "TLC proves ChainRefines for every hop sequence (<=3) over the single-slot domain and length 1-2 over pair/triple domains; real "
+    "chains (all 42 ordered pairs and 210 triples, sampled per description) are validated by TLC with the same ChainRefines operators "
+    "(Chain.* clauses) against the *original* description.", CONV_NOTE, CONV_TECH, "DESIGN.md 5.1, 8 C05")
+add("C06", "Every emitted class / function / method / argparse function is compiled, unparsed+reparsed, written with emit.file (black on/off), "
+    "executed, and observed through Python itself (__annotations__/__dict__, inspect.signature, a real ArgumentParser); TLC checks the "
+    "observation against the denotation operators C_*/F_*/O_* of ConvertRel.tla (Denotes.* clauses).", CONV_NOTE,
+    CONV_TECH + "; alpha for artefacts is Python's own introspection (vf/pyview.py), not doctrans' parsers", "DESIGN.md 5.1, 8 C06")
+add("C08", "Three passes emit;parse per kind and option record; TLC checks TextStable (digest of emission 3 = emission 2) and IrStable "
+    "(parse 3 = parse 2); FixedPointConsistent is model-checked on the spec (the stutter demanded is compatible with the hop relation).",
+    CONV_NOTE, CONV_TECH, "DESIGN.md 5.1, 8 C08")
+add("C18", "One interpreter per DOCTRANS_LINE_LENGTH (unset, 40..200); in each, every kind is emitted unwrapped and wrapped and both are parsed; "
+    "TLC checks the per-hop clauses and ConfigTransparent (the two parsed descriptions are equal, prose modulo whitespace).",
+    CONV_NOTE, CONV_TECH, "DESIGN.md 5.1, 8 C18")
+
+
 def main():
     props = [json.loads(l)["id"] for l in open(os.path.join(HERE, "properties.jsonl"))]
     m = {
